@@ -52,7 +52,7 @@ def pick(enabled, choice):
         w = 2
         if ev[0] == 'stop':
             w = 1      # an operator stop is part of the history as long as the operator starts the peer again
-        if ev[0] == 'open' and ev[1] in ('h0', 'h1', 'h2', 'h3', 'badver', 'badas'):
+        if ev[0] == 'open' and ev[1] in ('h0', 'h1', 'h2', 'h3', 'badver', 'badas', 'badas4'):
             w = 4
         elif ev[0] in ('ok', 'tick'):
             w = 5
@@ -64,7 +64,7 @@ def pick(enabled, choice):
 
 def nontrivial(events):
     for ev in events:
-        if ev[0] in ERRORISH or (ev[0] == 'open' and ev[1] in ('badver', 'badas', 'h1', 'h2')):
+        if ev[0] in ERRORISH or (ev[0] == 'open' and ev[1] in ('badver', 'badas', 'badas4', 'h1', 'h2')):
             return True
     return False
 
